@@ -135,10 +135,6 @@ structure PState where
   panicked : Bool := false
   deriving Repr
 
-def isOpen : EntryVal → Bool
-  | .openRange _ _ _ => true
-  | _ => false
-
 /-- `createEntry(entrySummary)`: add the pending entry, or report a second open range. -/
 def PState.commit (st : PState) : PState :=
   match st.pending with
